@@ -29,7 +29,7 @@
    through the three command-line tools and through design()). *)
 From Coq Require Import List String Ascii Arith Bool.
 From PC Require Import Base.Codes Comp.Syntax Comp.Compile Comp.Denote Comp.EmitProofs Sys.System Finish.Apply Finish.ApplyProofs Design.ShapeProofs Design.ComposeProofs
-  Design.Designer Design.TemplateProofs Design.DGraph Design.DenoteGraph Design.DenoteTie Design.DenoteSat Design.Results Design.ResultsProofs Design.Loaded Design.LoadedStruct Design.CrossProofs Design.EndToEnd Base.Sexp Comp.WfPil Comp.NameProofs Sys.System Sys.DesSys Sys.SysWfPil Sys.SysDesign Design.RecNames Design.EndToEndNames Design.SysFinish Sys.PrefixProofs Sys.SysNames Comp.Fix Comp.FixShape Design.FixedEndToEnd Sys.SysFixed Design.BondProofs Design.EqualProofs.
+  Design.Designer Design.TemplateProofs Design.DGraph Design.DenoteGraph Design.DenoteTie Design.DenoteSat Design.Results Design.ResultsProofs Design.Loaded Design.LoadedStruct Design.CrossProofs Design.EndToEnd Base.Sexp Comp.WfPil Comp.NameProofs Sys.System Sys.DesSys Sys.SysWfPil Sys.SysDesign Design.RecNames Design.EndToEndNames Design.SysFinish Sys.PrefixProofs Sys.SysNames Comp.Fix Comp.FixShape Design.FixedEndToEnd Sys.SysFixed Design.BondProofs Design.EqualProofs Finish.ApplyStructs.
 Import ListNotations.
 
 Theorem C06_finished_bases_consistent_partial : forall t prefix bs vals, base_values t prefix bs = OK vals ->
@@ -332,3 +332,13 @@ Theorem C06_equal_ports_agree : forall ls p lay g nts e w s (so : bool) a recs,
     nth_error v1 i1 = Some (base_char b) /\ nth_error v2 i2 = Some (base_char (app_par (xorb (snd (kap p so x)) (snd (kap p so y))) b)).
 Proof. exact loaded_equal_ports_agree. Qed.
 Print Assumptions C06_equal_ports_agree.
+
+(* "the .seqs file lists every sequence, strand and structure": besides the sequences and strands of C06_concatenations, what
+   finishing returns has one entry per structure, in declaration order, under its full name, whose string equals the record of
+   the design file; and one entry per strand with its dummy flag (the strands-to-order file keeps the entries whose flag is off) *)
+Theorem C06_finished_lists_structures_and_strands : forall t c f, apply_comp t c = OK f ->
+  map fst (fi_structs f) = map (fun nu => c_prefix c +++ fst nu) (c_structs c) /\
+  (forall n v, In (n, v) (fi_structs f) -> exists v', t n = Some v' /\ chars_eqb v v' = true) /\
+  map fst (fi_strands f) = map (fun nt => (c_prefix c +++ fst nt, t_dummy (snd nt))) (c_strands c).
+Proof. exact apply_comp_structs. Qed.
+Print Assumptions C06_finished_lists_structures_and_strands.
